@@ -120,7 +120,8 @@ pub fn exec_op(ctx: &mut ArrCtx, st: &mut C06State, verb: &str, m: &BTreeMap<Str
                     _ => a.retrieve_array_subset_ndarray_sharded_opt::<$t>(sc, &parse_subset(&m["r"]), &o),
                 };
                 match r {
-                    Ok(arr) => { let shape_ok = arr.shape().iter().map(|&x| x as u64).collect::<Vec<_>>() == want;
+                    // (an empty region has no elements to misplace: its ndarray may have any empty shape)
+                    Ok(arr) => { let shape_ok = arr.shape().iter().map(|&x| x as u64).collect::<Vec<_>>() == want || (want.contains(&0) && arr.is_empty());
                         let xs: Vec<Vec<u8>> = arr.iter().cloned().map($conv).collect(); format!("val {}{}", show_elems(&xs), if shape_ok { "" } else { " badshape" }) }
                     Err(_) => "err".to_string() } }}; }
             match dtype {
